@@ -33,11 +33,11 @@ CHECKS = {
    note="Lattice points on an arc end are skipped except an exactly decidable family; reversed ranges with from = to (mod 360) are ambiguous in the statement and skipped."),
  "C08": dict(engine="E2-graph + E1-lattice", ref="5/C08",
    technique="breadth-first enumeration of wrapper stacks (depth <= 3 thorough) with a differential oracle: constrained stack vs the identical unconstrained stack filtered by arc membership",
-   text="For every stack over {tool, base, frame, parallelogram} around a constrained robot (dof 5/6), every limit set (window, wrapping, wide, from==to, excluding, around the singular recovery, narrow J4 window with a previous outside it, almost-full-turn ranges forbidding an 8e-4 rad sliver around a solution), weight, pose, previous and entry point: answers == compliant subset of the unconstrained answers (both inclusions, mod 2pi); constraints() delegated field by field.",
+   text="For every stack over {tool, base, frame, parallelogram} around a constrained robot (dof 5/6), every limit set (window, wrapping, wide, from==to, excluding, around the singular recovery, narrow J4 window with a previous outside it, almost-full-turn ranges forbidding an 8e-4 rad sliver around a solution), weight, pose, previous and entry point: answers == compliant subset of the unconstrained answers (both inclusions, mod 2pi); constraints() delegated field by field. Limits are built through four construction histories chosen as a function of the data (new, update_range over an off-centre / an unconstrained earlier range, from_degrees); reference values come from a fresh Constraints::new.",
    note="Parallelogram limits are read on the wrapped robot's joints (weaker reading). Singular answers are not compared under CONSTRAINT_CENTERED (reference differs by design)."),
  "C09": dict(engine="E2-graph + E1-lattice", ref="5/C09",
    technique="breadth-first enumeration of every tool/base/frame sequence of length 1..3 over an isometry alphabet; per stack the full delegation matrix of trait entry points is executed and compared with the composed reference",
-   text="1884 (quick) / 6174 (thorough) stacks x robots x joint vectors x previous vectors {near the solution, CONSTRAINT_CENTERED with off-zero constraint centres, multi-turn}: forward, link poses, singularity, constraints, and the four inverse entry points (round trip through the reference FK, continuation order/representative, J6 contracts bit-exact); LinearAxis (3 axes) and Gantry forward via verification-only constructors. Threshold sweep (wrapper rotation/translation -> identity, alone and nested): the axis that approaches a special value is enumerated along a magnitude ladder (13 per decade, 1e-12..1e-2, both sides, plus neighbours/squares/roots of the float literals of the source file under test).",
+   text="1884 (quick) / 6174 (thorough) stacks x robots x joint vectors x previous vectors {near the solution, CONSTRAINT_CENTERED with off-zero constraint centres, multi-turn}: forward, link poses, singularity, constraints, and the four inverse entry points (round trip through the reference FK, continuation order/representative, J6 contracts bit-exact); LinearAxis (3 axes) and Gantry forward via verification-only constructors. Threshold sweep (wrapper rotation/translation -> identity, alone and nested): the axis that approaches a special value is enumerated along a magnitude ladder (13 per decade, 1e-12..1e-2, both sides, plus neighbours/squares/roots of the float literals of the source file under test). The continuation-order clause is also run through a robot with shape (collision filter over tool > base > limits, six environments, near and far previous).",
    note="5-DOF clauses are evaluated on stacks whose tools/frames are axial, as the property presupposes."),
  "C10": dict(engine="E1-lattice", ref="5/C10",
    technique="bounded-exhaustive enumeration of cell configurations x postures x safety tables x modes x entry points against a brute-force all-pairs oracle with an own triangle-distance; first-collision mode re-run in rayon pools 1..16",
@@ -45,11 +45,11 @@ CHECKS = {
    note="The oracle (own f64 segment/triangle code) is cross-checked against parry's exact queries in every run; pairs within 1 mm of their limit are not judged; tasks are assumed atomic (textual audit of collisions.rs each run, exit 2 if it no longer holds)."),
  "C11": dict(engine="E1-lattice", ref="5/C11",
    technique="bounded-exhaustive enumeration of constructors x frames x environments x safety x limits x postures with a differential oracle (ordered filter of the underlying stack's answers)",
-   text="Each inverse entry point of KinematicsWithShape must return exactly the underlying stack's answers with !collides, in unchanged order, bit-equal; forward/link poses/singularity bit-equal; the underlying stack is built by the harness from the same pieces (tool over base over the limited robot), and constraints() must return the limits given to the constructor field by field (incl. hand-set public centers/tolerances); the constructed stack equals base*FK_ref*tool; positioned_robot places meshes at the link poses; previous in {near, CONSTRAINT_CENTERED, far}; previous also equal to each answer of the underlying stack itself (the robot 'already stands' on a solution, colliding ones included); a second robot (same environment size, obstacles moved / other safety) is queried on the same thread just before each call (no state shared between instances); verdicts for the reference filter come from collision_details.",
+   text="Each inverse entry point of KinematicsWithShape must return exactly the underlying stack's answers with !collides, in unchanged order, bit-equal; forward/link poses/singularity bit-equal; the underlying stack is built by the harness from the same pieces (tool over base over the limited robot), and constraints() must return the limits given to the constructor field by field (incl. hand-set public centers/tolerances); the constructed stack equals base*FK_ref*tool; positioned_robot places meshes at the link poses; previous in {near, CONSTRAINT_CENTERED, far}; J6 arguments {0.4, 2.9, 0.4 + 2 pi} and limit variants incl. wrapping J4/J6 ranges and an unconstrained J6; previous also equal to each answer of the underlying stack itself (the robot 'already stands' on a solution, colliding ones included); a second robot (same environment size, obstacles moved / other safety) is queried on the same thread just before each call (no state shared between instances); verdicts for the reference filter come from collision_details.",
    note="collides() itself is tied to the pair oracle by C10. Cases where collisions remove some but not all answers must occur or the run is void."),
  "C12": dict(engine="E1-lattice + E4-sched", ref="5/C12",
    technique="scenario lattice on the real planner with scripted RNG, plus stateless DFS over all (or preemption-bounded) interleavings of the strategy race under a token-passing controller at the stop-flag hook points; rayon runs validated against explored traces",
-   text="E1: ~10k scenarios (start, stroke length/shape incl. short legs that turn the tool so that rotation dictates the check steps, and repeated poses / parking on the last stroke pose, check steps, cost limit, recursion depth, include-interpolation, seven obstacle layouts incl. one that blocks an arm branch mid-stroke only, safety, limits) plus ~1k scenarios run one at a time under the event recorder: every Ok path is judged for collision freedom (collides + brute-force pairs), limits, start configuration, ordered LAND/TRACE/PARK embedding with poses reproduced by the reference FK, linearity of LIN_INTERP waypoints, transition cost, and absence of LIN_INTERP when not requested. E4: 2-strategy races explored completely, 4-strategy races (one of them with strategies that really fail mid-stroke) with preemption bound 1 (thorough 2); success must be schedule independent; 20 rayon runs per scenario in pools 1..16 must reproduce explored per-strategy hook sequences.",
+   text="E1: ~10k scenarios (start, stroke length/shape incl. short legs that turn the tool so that rotation dictates the check steps, and repeated poses / parking on the last stroke pose, check steps, cost limit, recursion depth, include-interpolation, seven obstacle layouts incl. one that blocks an arm branch mid-stroke only, safety, limits) plus ~1k scenarios run one at a time under the event recorder: every Ok path is judged for collision freedom (collides + brute-force pairs), limits, start configuration, ordered LAND/TRACE/PARK embedding with poses reproduced by the reference FK, linearity of LIN_INTERP waypoints, transition cost, and absence of LIN_INTERP when not requested. E4: 2-strategy races explored completely, 4-strategy races (one of them with strategies that really fail mid-stroke) with preemption bound 1 (thorough 2); success must be schedule independent; 20 rayon runs per scenario in pools 1..16 must reproduce explored per-strategy hook sequences. Transition coefficients {default, stricter on all joints, base joint only}; the cost clause uses the configured set and its own weighted sum.",
    note="RNG draws are scripted to a constant so RRT legs are deterministic; the controller is sequentially consistent (the flag is monotone, see DESIGN 8); the cost clause is judged only when no RRT gap closing can be inside the Cartesian part."),
  "C13": dict(engine="E3-env", ref="5/C13",
    technique="exhaustive tree exploration of scripted sample sequences (ScriptedRng hook) of the real dual-tree RRT, default-first with every deviation at every consumed position; cancellation injected inside every consumed sample",
@@ -69,7 +69,7 @@ CHECKS = {
    note="Trusted: FK_ref, stack model."),
  "C17": dict(engine="E1-lattice", ref="5/C17",
    technique="exhaustive enumeration of triangles x rigid motions x per-point perturbations around the 5 mm tolerance, degenerate triples, and forward_transformed cases",
-   text="Exact images: frame maps the points, is a proper rotation and equals the generating motion; perturbations of 6/50 mm are rejected as NotIsometry, 1/4 mm accepted; collinear/coincident triples give ColinearPoints with the right side; Frame::translation; forward_transformed pose, soundness and order. Threshold sweep (rotation angle -> 0 / half turn, perturbation -> 5 mm, triangle height -> 0): the axis that approaches a special value is enumerated along a magnitude ladder (13 per decade, 1e-12..1e-2, both sides, plus neighbours/squares/roots of the float literals of the source file under test).",
+   text="Exact images: frame maps the points, is a proper rotation and equals the generating motion; perturbations of 6/50 mm are rejected as NotIsometry, 1/4 mm accepted; collinear/coincident triples give ColinearPoints with the right side; Frame::translation; forward_transformed pose, soundness and order. Threshold sweep (rotation angle -> 0 / half turn, perturbation -> 5 mm, triangle height -> 0): the axis that approaches a special value is enumerated along a magnitude ladder (13 per decade, 1e-12..1e-2, both sides, plus neighbours/squares/roots of the float literals of the source file under test). Two image points moved apart / together by 1..4.9 mm each, classified by the largest change of a side length.",
    note="Tolerances scale with the distance from the origin and the triangle height (conditioning)."),
  "C18": dict(engine="E3-env", ref="5/C18",
    technique="exhaustive enumeration of scripted RNG answers (ScriptedRng hook) over a lattice of ranges; piecewise-linear argument makes the draw alphabet complete per range",
